@@ -182,6 +182,15 @@ def run_case(case):
         line = {"set": "bin.set 0 %s %s" % (hx(k), hx(v)), "setitem": "bin.set 0 %s %s" % (hx(k), hx(v)),
                 "sete": "bin.set 0 %s -" % hx(k), "del": "bin.del 0 %s" % hx(k), "delitem": "bin.del 0 %s" % hx(k),
                 "delsub": "bin.delsub 0 %s" % hx(k)}[kind]
+        # raw level (statement-by-statement transcription of _set over hashes and the database) on the database
+        # as it was before the call: new root and added entries, or the refusal
+        rv = hx(v) if kind in ("set", "setitem") else "-"
+        if out == "ok":
+            added = sorted((a.hex(), b.hex()) for a, b in db.items() if a not in before_db)
+            res.emit("bin.rawset 0 %s %s %d" % (hx(k), rv, 1 if kind == "delsub" else 0),
+                     "root=%s added=%s" % (hx(t.root_hash), ",".join("%s:%s" % ab for ab in added) if added else "-"))
+        elif out == "exn NodeOverrideError":
+            res.emit("bin.rawset 0 %s %s %d" % (hx(k), rv, 1 if kind == "delsub" else 0), out)
         res.emit(line, out)
         res.tags.add("%s:%s" % (kind, "ok" if out == "ok" else "refused"))
         # oracle ---------------------------------------------------------------------------------
